@@ -52,19 +52,20 @@ def _base_copy(t: Term):
 def run(model: Model, rep: Report, tier: str) -> None:
     rep.level = "other"
     rep.explanation = (
-        "trso() is evaluated symbolically with its line helpers as primitives (23 paths); guards are compared with the published tests over the "
-        "regular nodes and in the published order; each helper is evaluated on its own and its record updates (on a deep copy) are read off and "
-        "compared by set-membership truth tables. Line 9's numerator/denominator ranges are compared with the order zones {after v} / {v and after}. "
-        "The line-6 gate is the conjunction Z_i∩X≠∅ ∧ all_{t,y} sep(G_i with edges into X removed; t, y | X). Purity is the effects analysis "
-        "(including shallow-copy aliasing). Decides this structure; does not decide the transport formula's value, which of several usable "
-        "domains is chosen (open in the source), nor termination."
+        "trso() and each of its helper steps are compared, path pair by path pair, with the algorithm written out as plain Python in "
+        "yv/refs/c05_ref.py (and the transport diagram in c06_ref.py): both sides go through the same evaluator; trso() is compared with its line "
+        "helpers as primitives (guards and their order, which helper gets which arguments, canonicalisation of every result, `None` for no estimand, "
+        "exception classes), every helper on its own (selection nodes, the line-6 gate and sub-query, record updates of lines 3 / 4 / 10 on a deep "
+        "copy, line 9's c-factor). Purity is the effects analysis (including shallow-copy aliasing); population tags and transport-node exclusion are "
+        "C06's rules. Decides this structure; does not decide the transport formula's value, which of several usable domains is chosen (open in the "
+        "source), nor termination."
     )
     rep.trusted_base = ["Tikka & Karvanen 2018 (soundness of TRSO)", "C04 separation oracle", "C14 graph primitives", "copy.deepcopy returns an independent object"]
-    rep.floors = {"R5.0": 2, "R5.1": 6, "R5.2": 2, "R5.3": 4, "R5.6": 8, "R5.7": 1, "R6.2": 5, "R6.3": 5}
+    rep.floors = {"R5.0": 2, "R5.1": 1, "R5.2": 2, "R5.3": 4, "R5.6": 8, "R6.2": 5, "R6.3": 5}
     sa = SetAlg(rewrite=rewriter(graph_rewrite, _regular_rewrite))
     n = var("%n")
     r5_helpers(model, rep)
-    r5_1(model, rep, sa, n)
+    r5_1_ref(model, rep)
     r5_6(model, rep)
     c06.r6_2(model, rep)
     c06.r6_3(model, rep)
@@ -118,6 +119,27 @@ def r5_helpers(model, rep) -> None:
          "the graph (all nodes, directed and bidirected edges) plus one transport node T_v -> v per variable to transport"),
     ], "yvref.c06", lambda m_, prims: (lambda: Evaluator(m_, primitives=set(GRAPH_PRIMS) | set(prims), prim_methods={"add_node", "add_directed_edge", "add_undirected_edge"})),
         SetAlg(rewriter(graph_rewrite)), construct=construct, loc=loc, post=nxden.post)
+
+
+def r5_1_ref(model, rep) -> None:
+    """trso() against the algorithm written out (yv/refs/c05_ref.py: lines 1-4, 6/7 -- only while no experiment is active --, 8/11, 9, 10 with
+    the transport-node gate, every recursive result canonicalised, `None` for "no estimand"), line helpers as primitives on both sides:
+    guards and their ORDER, which helper gets which arguments, what is returned, which exception classes can escape."""
+    from ..refcmp import load_reference, run_table
+    from .dslcommon import DSL_PRIMS
+
+    if "yvref.c05" not in model.modules:
+        load_reference(model, "yvref.c05", "c05_ref.py")
+    Q = ("cls", f"{T}.TRSOQuery")
+    H = {f"{T}.get_transport_nodes", f"{T}.get_regular_nodes", f"{T}.is_transport_node", "y0.mutate.canonicalize_expr.canonicalize",
+         f"{T}.activate_domain_and_interventions"} | {f"{T}.trso_line{i}" for i in (1, 2, 3, 4, 6, 9, 10)}
+    run_table(model, rep, [
+        ("R5.1", f"{T}.trso", "trso_algorithm", {"query": Q}, H, "lines-1-11",
+         "lines 1, 2, 3, 4 (None if a sub-problem fails), 6/7 (only while no experiment is active; the activated result of a usable domain), "
+         "8/11 (one district: no estimand), 9, 10 (no estimand if the enclosing district's pillow has a selection node while an experiment is active)"),
+    ], "yvref.c05", lambda m_, prims: (lambda: Evaluator(m_, primitives=set(GRAPH_PRIMS) | set(DSL_PRIMS) | set(prims),
+                                                        prim_methods={"__mul__", "__truediv__", "__or__", "simplify", "intervene"})),
+        SetAlg(rewriter(graph_rewrite)), construct=construct, loc=loc)
 
 
 def r5_0(model, rep, sa, n):
